@@ -8,7 +8,9 @@ structure AState where
   cfg : HmacCfg := {}
   users : List (String × String) := []
   cache : Cache := []
-  accepted : List (String × Int) := []   -- (nonce, signed time + tolerance) of every request the implementation accepted
+  accepted : List (String × Int × Int) := []   -- (nonce, signed time, window end) of every accepted request; the window
+                                               -- end is signed time + tolerance, moved out by a reload that raises the
+                                               -- tolerance while the window is still open
   n : Nat := 0
   bad : Nat := 0
 
@@ -31,7 +33,13 @@ def step (st : AState) (line : String) : AState × String :=
     | "acfg" =>
       ({ st with cfg := cfgOf (obj j "hmac"), cache := [], accepted := [],
                  users := (arr j "users").map (fun p => match asArr p with | [a, b] => (asStr a, asStr b) | _ => ("", "")) }, "ok")
-    | "areload" => (st, "ok")     -- the authenticator's nonce cache survives a reload
+    | "areload" =>
+      -- the authenticator's nonce cache survives a reload; a longer tolerance extends the remembered windows
+      let tol' := if has j "tol" then int j "tol" else st.cfg.tol
+      let delta := if tol' > st.cfg.tol then tol' - st.cfg.tol else 0
+      let now := int j "now"
+      ({ st with cfg := { st.cfg with tol := tol' }, cache := st.cache.map (fun e => (e.1, e.2 + delta)),
+                 accepted := st.accepted.map (fun (n, t0, e) => (n, t0, if now ≤ e then e + delta else e)) }, "ok")
     | "areq" =>
       let now := int j "now"
       let status := nat j "status"
@@ -44,12 +52,16 @@ def step (st : AState) (line : String) : AState × String :=
         let tOK := timeOK st.cfg now rq
         let condOK := match tOK with | some t => sigOK Sha256.hmac st.cfg t rq | none => false
         let nonce := Hk.Egress.trimWS rq.nonce
-        -- a request with this nonce was accepted before and its window (signed time + tolerance) is still open
-        let replay := st.accepted.any (fun (n, exp) => n == nonce && decide (now ≤ exp))
+        -- a request with this nonce was accepted before and its signed time still passes the (current) tolerance
+        let replay := st.accepted.any (fun (n, _, e) => n == nonce && decide (now ≤ e))
+        -- the window had closed under the tolerance in force when the request was accepted, and a reload that
+        -- RAISED the tolerance re-opened it (the purged nonce cannot be remembered): a distinct, documented class
+        let reopened := !replay && st.accepted.any (fun (n, t0, e) => n == nonce && decide (now > e) && decide (now ≤ t0 + st.cfg.tol))
         let st' := { st with cache := cache',
-                             accepted := if status == 202 then (nonce, tOK.getD 0 + st.cfg.tol) :: st.accepted else st.accepted }
+                             accepted := if status == 202 then (nonce, tOK.getD 0, tOK.getD 0 + st.cfg.tol) :: st.accepted else st.accepted }
         if status == 202 && !condOK then (st', s!"PROP C08,C17 accepted-without-valid-hmac in={tag}")
         else if status == 202 && replay then (st', s!"PROP C09 replay-accepted in={tag}")
+        else if status == 202 && reopened then (st', s!"PROP C09 replay-accepted-after-tolerance-raised-by-reload in={tag}")
         else if status != 202 && enq != 0 then (st', s!"PROP C08 denied-request-had-effect in={tag}")
         else if status == 202 && enq != 1 then (st', s!"DIVERGE enqueue-count in={tag}")
         else if ok && status == 401 then
